@@ -378,8 +378,14 @@ func cmdCheck(args []string) {
 		if *tier == "thorough" {
 			return true
 		}
-		// quick: skip clauses that were undecided at baseline (they are not claimed)
-		e := base.Entries[clauseKey(o)]
+		// quick: skip clauses that were undecided at baseline (they are not claimed) unless a known finding names them
+		k := clauseKey(o)
+		for _, fd := range findings {
+			if fd.Property == *prop && fd.Clause == k {
+				return true
+			}
+		}
+		e := base.Entries[k]
 		return e == nil || e.Discharged
 	}
 	res, err := runAll(*repo, *verif, timeout, only, os.Getenv("GOVC_SCRATCH"))
@@ -521,6 +527,21 @@ func cmdCheck(args []string) {
 			}
 		}
 		if !g.claimed && !g.isNew {
+			listed := false
+			for _, fd := range findings {
+				if fd.Property == *prop && fd.Clause == k {
+					listed = true
+					if len(failed) > 0 {
+						knownHit = append(knownHit, k)
+						fmt.Printf("KNOWN-FINDING: property=%s %s witness=%q %s\n", *prop, k, fd.Witness, fd.Note)
+					} else {
+						fmt.Printf("NOTE: finding %s is listed in known_findings.txt but its clause discharges now\n", k)
+					}
+				}
+			}
+			if listed {
+				continue
+			}
 			// undecided at baseline: never claimed, never a violation
 			nUndecided += len(g.obls)
 			if len(failed) > 0 {
